@@ -152,6 +152,14 @@ def run_cases(draw, tier):
     params = gen.drop_param(params, 'Investment Tax Credit Rate')
     if draw(st.integers(0, 3)) == 0:
         params = gen.merge(params, [['Total Capital Cost', gen.fmt(draw(gen.nice_floats(5, 400)))]])
+    # O&M side: total given, or the components given (the fee / tax-relief amounts must move annual O&M on every path)
+    k = draw(st.integers(0, 7))
+    if k in (0, 1):
+        params = gen.merge(params, [['Total O&M Cost', gen.fmt(draw(gen.nice_floats(0.1, 30)))]])
+    elif k == 2:
+        params = gen.merge(params, [['Wellfield O&M Cost', gen.fmt(draw(gen.nice_floats(0, 10)))],
+                                    ['Surface Plant O&M Cost', gen.fmt(draw(gen.nice_floats(0, 10)))],
+                                    ['Water Cost', gen.fmt(draw(gen.nice_floats(0, 5)))]])
     inc = []
     for n, lo, hi in INCENTIVES:
         if draw(st.integers(0, 2)) != 0:
